@@ -634,7 +634,11 @@ impl Compiler {
 
                 let pos_start_function = self.instructions.len();
 
-                self.compile_block_statement(body)?;
+                // loops surrounding the function definition can not be left or continued from inside the function
+                let outer_loop_contexts = std::mem::take(&mut self.loop_contexts);
+                let result = self.compile_block_statement(body);
+                self.loop_contexts = outer_loop_contexts;
+                result?;
 
                 if Self::block_ends_with_value(body) && self.last_instruction_is(OpCode::Pop) {
                     self.remove_last_instruction();
